@@ -293,7 +293,10 @@ class Run:
             perm, s = x.sort_legcharge(True, True)
             self.inv(s, name + 'sort_legcharge', cond, mods=m, watch=False)
             if not degenerate and x.rank <= 3:
-                n2 = self.npc.inner(x, x.conj(), axes=[list(range(x.rank))] * 2, do_conj=False)
+                if all(l is not None for l in x._labels):
+                    n2 = self.npc.inner(x, x.conj(), axes='labels', do_conj=False)      # pairs every label with its conjugated label
+                else:
+                    n2 = self.npc.inner(x, x.conj(), axes=[list(range(x.rank))] * 2, do_conj=False)
                 if dense is not None:
                     want = np.sum(np.abs(np.asarray(dense).astype(complex)) ** 2)
                     if abs(complex(n2) - want) > 1e-4 * (1 + abs(want)):
@@ -653,6 +656,13 @@ def item_pipes(S):
         cond = 'pipes=conjugated-pipe,sort=%s,bunch=%s' % (so, bu)
         if not S.inv_leg(pipe, 'LegPipe', cond):
             continue
+        chinfo = S.env.chinfo
+        for form, (fa, fk) in (('args', ((-1,), {})), ('kwargs', ((), {'fac': -1}))):
+            mp = S.call('charges.LegPipe.apply_charge_mapping', form, pipe.apply_charge_mapping, lambda ch, fac=1: chinfo.make_valid(np.asarray(ch) * fac), fa, fk)
+            if S.inv_leg(mp, 'LegPipe.apply_charge_mapping', form) and not any(0 in np.diff(np.asarray(l.slices)).tolist() for l in mp.legs) and mp.ind_len:
+                f2 = npc.Array.from_func(np.ones, [mp, mp.conj()])
+                if S.inv(f2, 'LegPipe.apply_charge_mapping->from_func', form, watch=False):
+                    S.inv(f2.split_legs(), 'LegPipe.apply_charge_mapping->split_legs', form, watch=False)
         y = S.call('np_conserved.Array.combine_legs', cond, x.combine_legs, [['a', 'b']], pipes=[pipe], new_axes=[rng.choice([0, 1])])
         if S.inv(y, 'Array.combine_legs', cond):
             S.qt_is(y, qt, 'Array.combine_legs', cond, 'unchanged')
@@ -711,27 +721,50 @@ def item_pipes(S):
                     S.reuse(t, np.tensordot(Ad2, Bd2, axes=1), 'tensordot', cond)
     # ---- vector times matrix (all legs of the first operand contracted), with and without common blocks
     rv = [S.rleg(0)]
-    v, vd, qv = S.tensor(rv, ['k'], S.case['dtypes'][2], p_missing=0.5)
+    rows_k = [tuple(int(c_) for c_ in r_) for r_ in rv[0].charges]
+    dup = [b_ for b_ in range(rv[0].nb) if rows_k.count(rows_k[b_]) > 1 and rv[0].sizes()[b_] > 0]
+    qv_force = qb_force = None
+    if dup and rB[1].n:      # a leg that is not blocked by charge: total charges such that the blocks of equal charge are allowed
+        sk = rv[0].charges[dup[0]] * rv[0].qconj
+        qv_force = G.mv(S.mods, sk)
+        qb_force = G.mv(S.mods, -sk + S.X.signed_qflat(rB[1], S.mods)[rng.randrange(rB[1].n)])
+    v, vd, qv = S.tensor(rv, ['k'], S.case['dtypes'][2], p_missing=0.0, qt=qv_force)
+    B, Bd, qb = S.tensor(rB, ['k*', 'r'], S.case['dtypes'][1], p_missing=0.0, qt=qb_force)
+    if not S.inv(B, 'tensor', None, dense=Bd):
+        return
     if S.inv(v, 'tensor', 'vector', dense=vd) and not degenerate:
         for variant in ('as-generated', 'no-common-block'):
-            B3 = B
+            B3, v3, vd3 = B, v, vd
             if variant == 'no-common-block':
-                kv = {int(r[0]) for r in v._qdata}
+                # the vector keeps one block; the matrix keeps the blocks of the OTHER blocks of the contracted leg (when the leg is not blocked by
+                # charge some of them carry the same charge: the worker then pairs a row with a column that have no block in common)
+                if len(v._data) > 1:
+                    v3 = v.copy(deep=True)
+                    v3._data, v3._qdata = v3._data[:1], np.array(v3._qdata[:1], dtype=np.intp, order='C')
+                    if not S.inv(v3, 'tensor', variant):
+                        continue
+                    vd3 = np.asarray(v3.to_ndarray())
+                kv = {int(r[0]) for r in v3._qdata}
                 keep = [i for i, r in enumerate(B._qdata) if int(r[0]) not in kv]
+                if len(v3._data) and any(np.array_equal(rv[0].charges[int(B._qdata[i, 0])], rv[0].charges[k_]) for i in keep for k_ in kv):
+                    R.stat('tensordot:vector-matrix-no-common-block(same-charge)')
                 B3 = B.copy(deep=True)
                 B3._data = [B3._data[i] for i in keep]
                 B3._qdata = np.array(B3._qdata[keep], dtype=np.intp, order='C').reshape(len(keep), 2)
                 if not S.inv(B3, 'tensor', variant):
                     continue
             cond = 'vector-matrix,' + variant
-            t = S.call('np_conserved.tensordot', cond, npc.tensordot, v, B3, axes=['k', 'k*'])
-            if S.inv(t, 'tensordot', cond, dense=np.tensordot(vd, np.asarray(B3.to_ndarray()), axes=1)):
+            t = S.call('np_conserved.tensordot', cond, npc.tensordot, v3, B3, axes=['k', 'k*'])
+            if S.inv(t, 'tensordot', cond, dense=np.tensordot(vd3, np.asarray(B3.to_ndarray()), axes=1)):
                 S.qt_is(t, qv + np.asarray(B3.qtotal), 'tensordot', cond, 'sum')
-            t = S.call('np_conserved.tensordot', cond, npc.tensordot, B3.transpose(['r', 'k*']), v, axes=['k*', 'k'])
-            S.inv(t, 'tensordot', 'matrix-vector,' + variant, dense=np.tensordot(np.asarray(B3.to_ndarray()).T, vd, axes=1))
+            t = S.call('np_conserved.tensordot', cond, npc.tensordot, B3.transpose(['r', 'k*']), v3, axes=['k*', 'k'])
+            S.inv(t, 'tensordot', 'matrix-vector,' + variant, dense=np.tensordot(np.asarray(B3.to_ndarray()).T, vd3, axes=1))
     # ---- addition of partially labelled tensors (no transposition: documented warning)
-    y, ydense, _ = S.tensor(rl, ['a', None, 'c'], S.case['dtypes'][1], qt=qt)
-    if S.inv(y, 'tensor', None, dense=ydense):
+    rl2 = [rl[0], rl[1], rl[0]]
+    x2, dense2, qt2 = S.tensor(rl2, ['a', None, 'c'], S.case['dtypes'][2])
+    y, ydense, _ = S.tensor(rl2, ['c', None, 'a'], S.case['dtypes'][1], qt=qt2)       # the same labels in another order, one leg not labelled
+    if S.inv(x2, 'tensor', None, dense=dense2) and S.inv(y, 'tensor', None, dense=ydense):
+        x, dense, qt = x2, dense2, qt2
         for how in ('add', 'iadd', 'sub', 'binary'):
             a = x.copy(deep=True)
             cond = 'partially-labelled'
@@ -954,19 +987,22 @@ def item_linalg(S):
             S.qt_is(P_, G.mv(mods, -np.asarray(U_.qtotal)), 'polar', cond, 'u.qtotal + p.qtotal = a.qtotal')
         # speigs: eigenvectors of a charge sector as tensors
         sq = X.signed_qflat(rL, mods)
-        secs = sorted({tuple(int(v) for v in r) for r in sq})
-        sec = np.array(rng.choice(secs), dtype=QT).reshape(q)
-        dim = int(np.sum(np.all(sq == sec[None, :], axis=1))) if q else rL.n
-        if dim >= 3 and dt.kind != 'i' and not single:
-            cond = 'sector-dim>=3'
+        # the sector of the first and of the last index of the leg (the search for the block passes over the other blocks)
+        for which_sec, sec in (('first', sq[0]), ('last', sq[-1])):
+            sec = np.array(sec, dtype=QT).reshape(q)
+            dim = int(np.sum(np.all(sq == sec[None, :], axis=1))) if q else rL.n
+            if dt.kind == 'i' or single or (which_sec == 'last' and np.array_equal(sq[0], sq[-1])):
+                continue
+            cond = 'sector-of-the-%s-index,%s' % (which_sec, 'dim>=3' if dim >= 3 else 'dim<3')
             Hf = H.astype(np.result_type(dt, np.float64))
-            W3, V3 = S.call('np_conserved.speigs', cond, npc.speigs, Hf, sec, 1, which='LM', v0=np.ones(dim))
+            W3, V3 = S.call('np_conserved.speigs', cond, npc.speigs, Hf, sec, 1, which='LM', **({'v0': np.ones(dim)} if dim >= 3 else {}))
             for v in V3:
                 if S.inv(v, 'speigs', cond):
                     S.qt_is(v, sec, 'speigs', cond, 'charge_sector')
                     w = npc.tensordot(Hf, v, axes=1)
                     if S.inv(w, 'speigs->tensordot', cond, watch=False):
                         S.dense_is(w, complex(W3[0]) * np.asarray(v.to_ndarray()), 'speigs->tensordot', cond, prop='C05', tol=1e-7)
+        sec = np.array(sq[rng.randrange(rL.n)], dtype=QT).reshape(q)
         if dt.kind != 'i' and not single:
             cond = 'block-of-the-sector-not-stored'
             H0 = npc.zeros([L, L.conj()], np.result_type(dt, np.float64), labels=['v', 'v*'])
@@ -1160,6 +1196,15 @@ def run_dipolar(case, R):
     if len(args[4]) >= 2 and all(mods[i] != 1 for i in args[3]):
         if charges.DipolarChargeInfo(args[0], args[1], args[2], args[3], args[4][::-1]) == ci:
             R.fail('C02', 'DipolarChargeInfo.__eq__', None, 'wrong-verdict', 'different dipole_dims compare equal')
+    # fixed structures that differ in exactly one of charge_idcs / dipole_idcs / dipole_dims / mod
+    fm, fn = [1, 1, 3, 3], ['N', 'M', 'Px', 'Py']
+    variants = [charges.DipolarChargeInfo(fm, fn, [0, 0], [2, 3], [0, 1]), charges.DipolarChargeInfo(fm, fn, [1, 1], [2, 3], [0, 1]),
+                charges.DipolarChargeInfo(fm, fn, [0, 0], [3, 2], [0, 1]), charges.DipolarChargeInfo(fm, fn, [0, 0], [2, 3], [1, 0]),
+                charges.DipolarChargeInfo([1, 1, 3, 6], fn, [0, 0], [2, 3], [0, 1])]
+    for i_, a_ in enumerate(variants):
+        for j_, b_ in enumerate(variants):
+            if (a_ == b_) != (i_ == j_) or (a_ != b_) != (i_ != j_):
+                R.fail('C02', 'DipolarChargeInfo.__eq__', None, 'wrong-verdict', '%r == %r gives %s' % (a_, b_, a_ == b_))
     othermods = [m + 1 if m != 1 else 1 for m in mods]
     try:
         if othermods != list(mods) and charges.DipolarChargeInfo(othermods, args[1], args[2], args[3], args[4]) == ci:
